@@ -12,10 +12,10 @@ import (
 
 	"github.com/btcsuite/btcd/btcec/v2"
 	"github.com/btcsuite/btcd/btcutil/v2"
-	"github.com/lightningnetwork/lnd/graph/db/models"
 	"github.com/lightningnetwork/lnd/internal/verifkit"
 	"github.com/lightningnetwork/lnd/lnwire"
 	"github.com/lightningnetwork/lnd/routing/route"
+	"github.com/lightningnetwork/lnd/zpay32"
 )
 
 // c19Pol is one directed channel policy of a generated graph
@@ -34,6 +34,10 @@ type c19Pol struct {
 	InRate   int64  `json:"inRate"`
 	Delta    int64  `json:"delta"`
 	Disabled int64  `json:"disabled"`
+
+	// Rh is set on hop hints only: the index of the route hint (chain of
+	// hop hints in forward order) the hop hint belongs to.
+	Rh int64 `json:"rh,omitempty"`
 }
 
 // c19Req is one request; -1 means "no limit", empty means "unrestricted".
@@ -330,32 +334,58 @@ func c19Query(ctx *pathFindingTestContext, g *testGraphInstance,
 		restr.LastHop = &lh
 	}
 
-	// Route hints of the invoice: private edges, as RouteRequest.RouteHints
-	// carries them.
+	// Route hints of the invoice: the hop hints are grouped into route
+	// hints (chains in forward order) and converted into additional edges
+	// by the real RouteHintsToEdges, as newPaymentSession and QueryRoutes
+	// do.
 	var hints map[route.Vertex][]AdditionalEdge
-	for i := range q.Hints {
-		h := q.Hints[i]
-		to := c19Vertex(g, h.To)
-		if hints == nil {
-			hints = map[route.Vertex][]AdditionalEdge{}
+	if len(q.Hints) > 0 {
+		var (
+			routeHints [][]zpay32.HopHint
+			order      []int64
+			byRh       = map[int64][]c19Pol{}
+		)
+		for _, h := range q.Hints {
+			if _, ok := byRh[h.Rh]; !ok {
+				order = append(order, h.Rh)
+			}
+			byRh[h.Rh] = append(byRh[h.Rh], h)
 		}
-		from := c19Vertex(g, h.From)
-		hints[from] = append(hints[from], &PrivateEdge{
-			policy: &models.CachedEdgePolicy{
-				ChannelID:     h.ID,
-				HasMaxHTLC:    h.MaxHtlc != 0,
-				TimeLockDelta: uint16(h.Delta),
-				MinHTLC:       lnwire.MilliSatoshi(h.MinHtlc),
-				MaxHTLC:       lnwire.MilliSatoshi(h.MaxHtlc),
-				FeeBaseMSat:   lnwire.MilliSatoshi(h.Base),
-				FeeProportionalMillionths: lnwire.MilliSatoshi(
-					h.Rate,
-				),
-				ToNodePubKey: func() route.Vertex {
-					return to
-				},
-			},
-		})
+		for _, rh := range order {
+			var chain []zpay32.HopHint
+			for i, h := range byRh[rh] {
+				// The schedule must be a chain that ends at
+				// the target (a malformed schedule is a
+				// generator error, not a verdict).
+				next := q.Dst
+				if i+1 < len(byRh[rh]) {
+					next = byRh[rh][i+1].From
+				}
+				if h.To != next {
+					panic(fmt.Sprintf("c19: hop hint %d of "+
+						"route hint %d leads to %s, not %s",
+						i, rh, h.To, next))
+				}
+				from := c19Vertex(g, h.From)
+				pub, err := btcec.ParsePubKey(from[:])
+				if err != nil {
+					panic(err)
+				}
+				chain = append(chain, zpay32.HopHint{
+					NodeID:                    pub,
+					ChannelID:                 h.ID,
+					FeeBaseMSat:               uint32(h.Base),
+					FeeProportionalMillionths: uint32(h.Rate),
+					CLTVExpiryDelta:           uint16(h.Delta),
+				})
+			}
+			routeHints = append(routeHints, chain)
+		}
+		var err error
+		hints, err = RouteHintsToEdges(routeHints, target)
+		if err != nil {
+			return c19NoRoute("RouteHintsToEdges: " + err.Error())
+		}
 	}
 
 	cfg := *testPathFindingConfig
